@@ -26,7 +26,7 @@ RULE = ('per run: target in {exact TT rank 1..4 with random cores, 1/(2+sum(i_k+
         '2..20, non-uniform, including sizes smaller than rank+kick; eps=10^-k, k in 3..10; API in {dmrg_cross, dmrg_cross with start '
         'tensor, function_interpolate univariate, multivariate (+start tensor)}; the user function is the simulator\'s peer: every '
         'request is validated (shape, dtype, index range / membership of the values in the argument tensors) and recorded; global torch '
-        'PRNG seeded per run; primary SVD failures on 25%% of runs; distinct by (api, target, order, eps decade, small-mode flag, '
+        'PRNG seeded per run; primary SVD failures on 25%% of runs (at seeded call indices, or at seeded fractions of the measured number of SVD calls so that late calls fail too); distinct by (api, target, order, eps decade, small-mode flag, '
         'start tensor, fault kind)')
 ASSUMPTIONS = ['single-threaded BLAS', 'oracle constant C=10 on the relative error; targets have TT ranks <= 4 or fast-decaying ranks',
                'the peer answers from the exact dense tensor; the clamp that keeps it answering after an invalid request is not part of the oracle']
@@ -61,6 +61,8 @@ def gen_case(rng):
     if r < 0.2:
         pts = sorted(set(rng.randint(0, 40) for _ in range(rng.randint(1, 4))))
         p['plan'] = {'P': pts, 'Q': [], 'all': False, 'kind': 'subset'}
+        if rng.random() < 0.5:
+            p['plan'] = {'P': [], 'frac': sorted(rng.choice([0.0, 0.05, 0.3, 0.5, 0.8, 0.95, 0.999]) for _ in range(rng.randint(1, 3))), 'Q': [], 'all': False, 'kind': 'fraction'}
     elif r < 0.25:
         p['plan'] = {'P': [], 'Q': [], 'all': True, 'kind': 'all'}
     else:
@@ -277,6 +279,12 @@ def exec_case(p, res):
     res['keys'].append(fam)
     desc = {'case': p}
     api = p['api']
+    if p['plan'] and p['plan'].get('frac') is not None:
+        def _count():
+            seams.seed_global(p['tseed'])
+            peer0, _, x0_, start0 = build(p)       # a separate peer: the counting run must not touch the recorded one
+            return call(p, peer0, x0_, start0)
+        p = dict(p, plan=svdfault.resolve_fractions(p['plan'], _count))
     seams.seed_global(p['tseed'])
     y, exc, f = svdfault.run_with_plan(lambda: call(p, peer, x, start), p['plan'] or {})
     svdfault.branch_stats(f, stats)
